@@ -2,6 +2,7 @@ import NmVerif.Proto
 import NmVerif.Containers.Core
 import NmVerif.Containers.Spec
 import NmVerif.Containers.Vector
+import NmVerif.Containers.StaticVector
 /-
   Driver for C19: `hist kind=<vec|…> elem=<int|double> ops=<op>;<op>;…` runs the history on the MODEL and prints,
   after every operation, the client-visible state of slots 0 and 1 (spec part), the internal state
@@ -78,6 +79,9 @@ def trace (I : Impl σ Int) (intern : σ → String) (ops : List (Op Int)) : Str
 
 def vecIntern (v : Vec Int) : String := s!"{v.cap}:{fmtCells (v.cells.drop v.size)}"
 
+def svecIntern (c : Nat) (v : SVec Int) : String := s!"{c}:{fmtCells (v.cells.drop v.size)}"
+def arrIntern (c : Nat) (_ : SVec Int) : String := s!"{c}:"
+
 def handle : Handler := fun op a =>
   match op with
   | "hist" => orBad do
@@ -85,6 +89,8 @@ def handle : Handler := fun op a =>
       let ops ← (a.get? "ops").bind parseOps
       match kind with
       | "vec" => pure (trace (vecImpl Int) vecIntern ops)
+      | "svec" => pure (trace (svecImpl 4 (0 : Int)) (svecIntern 4) ops)
+      | "arr" => pure (trace (arrImpl 3 (0 : Int)) (arrIntern 3) ops)
       | _ => none
   | _ => none
 
